@@ -33,7 +33,7 @@ SPEC = {'id': 'C13',
              'today; true: kept). Not modelled: protocolName/protocolType pass-through, OffsetFetch/DescribeGroups/ListGroups/DeleteGroups, store errors, the '
              "ticker's real-time jitter.",
  'search_n': 1500,
- 'theorems': ['C13_fenced', 'C13_offsets_only_by_current_commit', 'C13_generation_monotone', 'C13_join_reports_generation', 'C13_nonvacuous'],
+ 'theorems': ['C13_fenced', 'C13_offsets_only_by_current_commit', 'C13_generation_monotone', 'C13_join_reports_generation', 'C13_fenced_under_store_faults', 'C13_generation_monotone_in_memory_under_store_faults', 'C13_nonvacuous'],
  'level_text': 'Machine-checked Coq theorems: in every state a sync/heartbeat/commit whose (member, generation) is not (current member, current generation) is '
                'answered with an error and changes no committed offset; offsets change only through a commit of a current member answered NONE; along every '
                'history and continuation during which the group exists (incl. expiry, leaves, failover) the generation never decreases and join replies report '
@@ -42,3 +42,6 @@ SPEC = {'id': 'C13',
                'stored offsets.'}
 SPEC['level_text'] += " The harness's oracle keeps its own ground truth that does not depend on the store image a new coordinator restores (members seen to be removed stay fenced until they join again; the highest generation the group was seen to have), and the generator regularly produces 'member expired by a tick / left -> failover before any survivor rejoins -> requests from the removed member and from survivors with their last-seen generation', so a lost or stale persist shows up as an accepted zombie request / a decreasing generation with a concrete replay."
 SPEC['assumptions'].insert(0, "every coordinator operation holds c.mu from its first read of group state to its last store write (this is what makes the model's step relation atomic per operation, schedules = operation sequences). CHECKED by the harness on the real code: a gating store wrapper intercepts every store call the coordinator makes (Metadata, PutConsumerGroup, FetchConsumerGroup, DeleteConsumerGroup, CommitConsumerOffset) during every operation of every history and tests whether c.mu is free; if it is, the schedule's inner operations are run to completion on the same group while that store call is parked and the failure lock-released-across-store-call:<op>:<storecall> is reported with the schedule as replay (plus whatever the property oracles then observe); where the lock is held the inner operations run after the outer one, which is the order the lock enforces. Windows for every outer kind x inner kind are generated in every quick run.")
+SPEC['assumptions'] = [a for a in SPEC['assumptions'] if not a.startswith('store operations succeed')]
+SPEC['assumptions'].append("transient store failures ARE modelled (model/CoordinatorFaults.v, step relation stepf with a per-operation fault: load of the group / whole-group write / offset write fails) and injected by the harness's gating store wrapper into every operation kind (incl. the first join, leave, the leader's sync, cleanup's persist, the load after a failover); the *_under_store_faults theorems hold for arbitrary failures; claims that compare a coordinator with its successor (C15 view, C13/C12 across failover) need 'the last whole-group write succeeded' (synced), stated in the theorems. Not modelled and not injected: a failing store.Metadata in the leader's sync (collectTopicPartitions falls back to partition 0 per topic). The check needs fixes/C14-join-error-reply-no-members.patch.")
+SPEC['coq_deps'] = ['theories/corr/CoordinatorCorr.vo']
